@@ -39,6 +39,8 @@ pub struct GenParams {
     pub acyclic: bool,
     /// version set shape weights for root requirements (None = vs_weights)
     pub root_vs_weights: Option<[usize; 4]>,
+    /// x/64: a package gets 21..60 candidates (sizes at which library sort routines change algorithm)
+    pub p_big_package: usize,
 }
 
 impl GenParams {
@@ -67,6 +69,7 @@ impl GenParams {
             id_weights: [6, 3, 3],
             acyclic: false,
             root_vs_weights: None,
+            p_big_package: 0,
         }
     }
 
@@ -96,6 +99,7 @@ impl GenParams {
             id_weights: [6, 3, 3],
             acyclic: false,
             root_vs_weights: None,
+            p_big_package: 0,
         }
     }
 
@@ -125,6 +129,7 @@ impl GenParams {
             id_weights: [6, 3, 3],
             acyclic: false,
             root_vs_weights: None,
+            p_big_package: 0,
         }
     }
 }
@@ -253,7 +258,11 @@ pub fn gen_world(rng: &mut Rng, p: &GenParams, n_problems: usize) -> (World, Vec
             } else {
                 b.rng.range(1, p.max_candidates)
             };
-            k.min(remaining)
+            if p.p_big_package > 0 && b.rng.chance(p.p_big_package, 64) {
+                b.rng.range(21, 60)
+            } else {
+                k.min(remaining)
+            }
         };
         let mut cands: Vec<u32> = (next_s..next_s + k as u32).collect();
         next_s += k as u32;
@@ -402,6 +411,7 @@ pub fn gen_world(rng: &mut Rng, p: &GenParams, n_problems: usize) -> (World, Vec
         });
     }
     let mut w = b.w;
+    w.filter_reversed = rng.chance(1, 6);
     let layout = rng.weighted(&p.id_weights);
     if layout != 0 {
         renumber(rng, &mut w, &mut problems, layout == 2);
@@ -518,6 +528,7 @@ pub fn apply_maps(
     for (u, members) in &w.unions {
         nw.unions.insert(mu[u], members.iter().map(|v| mv[v]).collect());
     }
+    nw.filter_reversed = w.filter_reversed;
     *w = nw;
     for p in problems.iter_mut() {
         p.requirements = p.requirements.iter().map(mreq).collect();
